@@ -536,7 +536,27 @@ class Normaliser:
         out = _Sub(st, shadow).visit(copy.deepcopy(e))
         if self.module is not None:
             out = _FoldConst(self.module, self.locals | shadow | set(st.stale)).visit(out)
-        return _FoldLen(self.module, self.locals | shadow, self.local_table).visit(out)
+        out = _FoldLen(self.module, self.locals | shadow, self.local_table).visit(out)
+        return self.fold_index(out)
+
+    def fold_index(self, e: ast.AST) -> ast.AST:
+        """`(a, b)[1]` -> `b` (a projection of a pair built on the spot, e.g. after inlining a method that returns a pair):
+        only when the elements dropped are pure values, so nothing but the selected value is lost (round 13)."""
+        nz = self
+
+        class Fold(ast.NodeTransformer):
+            def visit_Subscript(self, n: ast.Subscript) -> ast.AST:
+                self.generic_visit(n)
+                if isinstance(n.ctx, ast.Load) and isinstance(n.value, (ast.Tuple, ast.List)) and isinstance(n.slice, ast.Constant) \
+                        and type(n.slice.value) is int and not any(isinstance(x, ast.Starred) for x in n.value.elts) \
+                        and -len(n.value.elts) <= n.slice.value < len(n.value.elts):
+                    keep = n.value.elts[n.slice.value]
+                    if all(x is keep or nz.substitutable(x) for x in n.value.elts):
+                        return keep
+                return n
+        if not any(isinstance(n, ast.Subscript) and isinstance(n.value, (ast.Tuple, ast.List)) for n in ast.walk(e)):
+            return e
+        return Fold().visit(e)
 
     def substitutable(self, v: ast.AST) -> bool:
         for n in ast.walk(v):
@@ -1457,7 +1477,8 @@ def inline_helpers(fn: FuncNode, helpers: T.Dict[str, FuncNode], *, calls: T.Ite
     return new
 
 
-def normal_form(fn: FuncNode, module: ast.Module, *, cls: T.Optional[str] = None, calls: T.Iterable[str] = (), skip: T.Iterable[str] = ()) -> FuncNode:
+def normal_form(fn: FuncNode, module: ast.Module, *, cls: T.Optional[str] = None, calls: T.Iterable[str] = (), skip: T.Iterable[str] = (),
+                public: T.Iterable[str] = ()) -> FuncNode:
     """THE normal form the C19/C20 rules are written against: private helpers of the same class / module inlined
     (calls bound by signature), loops over constant tables unrolled, constant `len()` folded, tail duplication,
     locals replaced by their reaching definition."""
@@ -1475,6 +1496,8 @@ def normal_form(fn: FuncNode, module: ast.Module, *, cls: T.Optional[str] = None
                 if isinstance(m, (ast.FunctionDef, ast.AsyncFunctionDef)) and m.name.startswith('_') and not (m.name.startswith('__') and m.name.endswith('__')) \
                         and m.name not in skip:
                     helpers[m.name] = m
+                elif isinstance(m, (ast.FunctionDef, ast.AsyncFunctionDef)) and m.name in public and m.name not in skip and m is not fn:
+                    helpers[m.name] = m          # a public method of the same class the caller names as inlinable (closed world: no override)
     functions = {k: v for k, v in functions.items() if counts.get(k) == 1}
     partials: T.Dict[str, T.Tuple[FuncNode, T.List[ast.expr], T.List[ast.keyword]]] = {}
     from .c19_fold import is_constant_name
